@@ -261,8 +261,48 @@ def run(ck):
     ck.ob('C28.parse', 'C28.parse/overflow-refused', uses_from_chars or nwrap > 0, pu.loc(),
           'parse_uint64 either delegates to std::from_chars (which reports out-of-range) or its own arithmetic is proved not to wrap '
           '(%s; %d arithmetic site(s) analysed)' % ('std::from_chars' if uses_from_chars else 'hand-written', nwrap))
-
+    _late_rules(ck, P, hs)
 
 def lambda_re(pat):
     import re
     return re.compile(pat)
+
+
+def _late_rules(ck, P, hs):
+    # ---- the cap applied is the cap configured: set_max_control_stream_bytes stores its argument (or "unlimited" for 0) without arithmetic ------
+    PCP = ck.prog(['src/daemon/ControlPlane.cpp'])
+    smx = PCP.fn('ephemeralnet::daemon::set_max_control_stream_bytes')
+    ck.touch(smx)
+    arith = [i for i in smx.walk() if smx.nodes[i]['k'] in ('BinaryOperator', 'CompoundAssignOperator') and smx.nodes[i].get('op') in ('+', '-', '*', '/', '%', '<<', '>>', '&', '|', '+=', '-=', '*=', '/=')]
+    ck.ob('C28.len', 'C28.len/cap-stored-as-configured', not arith, smx.loc(arith[0]) if arith else smx.loc(),
+          'set_max_control_stream_bytes stores the configured byte count itself (0 = unlimited): no rounding or alignment widens the cap beyond --max-store-bytes')
+
+    # ---- streamed FETCH answers are budgeted: a payload goes back to the client only past allow_stream_fetch(...) == true -------------------------
+    hf = P.fn(IMPL + 'handle_fetch')
+    ck.touch(hf)
+    pay_sends = [i for i in hf.walk() if hf.nodes[i].get('callee') == IMPL + 'send_response' and len([a for a in hf.call_args(i) if hf.nodes[a]['k'] != 'CXXDefaultArgExpr']) >= 4]
+
+    def budget(fact):
+        kind, node, val = fact
+        return kind == 'bool' and val is True and hf.nodes[node].get('callee') == IMPL + 'allow_stream_fetch'
+    ck.floor('C28.limiter', 'payload-carrying responses in handle_fetch', len(pay_sends), 1)
+    f28, _ = gate_check(hf, [('streamed payload', i) for i in pay_sends], [('allow_stream_fetch', budget)])
+    ck.ob('C28.limiter', 'C28.limiter/streamed-fetch-budgeted', not f28, hf.loc(f28[0][2]) if f28 else hf.loc(),
+          'handle_fetch sends chunk bytes over the control socket only after allow_stream_fetch(identity) accepted the request', f28[0][3] if f28 else None)
+
+    # ---- the proof of work is checked over the whole sanitised filename: the work input is built from the string, not from a C string ------------
+    cstr = []
+    for i in hs.walk():
+        nd_ = hs.nodes[i]
+        if nd_['k'] in ('InitListExpr', 'CXXConstructExpr', 'CXXTemporaryObjectExpr') and 'StoreWorkInput' in (nd_.get('t') or ''):
+            for j in hs.walk(i):
+                if (hs.nodes[j].get('callee') or '').endswith(('::c_str', '::data')) and 'basic_string' in (hs.nodes[j].get('callee') or ''):
+                    cstr.append(j)
+        if nd_['k'] == 'VarDecl' and 'StoreWorkInput' in (nd_.get('t') or '') and nd_.get('init') is not None and nd_['init'] >= 0:
+            from sa.flow import value_sources as _vs28
+            for j in _vs28(hs, nd_['init']):
+                if (hs.nodes[j].get('callee') or '').endswith(('::c_str', '::data')) and 'basic_string' in (hs.nodes[j].get('callee') or ''):
+                    cstr.append(j)
+    ck.ob('C28.pow', 'C28.pow/whole-filename', not cstr, hs.loc(cstr[0]) if cstr else hs.loc(),
+          'the StoreWorkInput checked by store_pow_valid takes the filename as the std::string / string_view itself (a C-string view stops at the first NUL: '
+          'a nonce mined for "a.txt" would cover "a.txt\\\\0anything")')
